@@ -140,6 +140,62 @@ type variant struct {
 	name     string
 	src      string
 	padLines map[int]bool
+	other    map[string]string // replacement contents of sibling files of the package (guest schemas)
+}
+
+// guestVariants moves the plain functions of the sibling example file (positive <-> negative, same package) into the
+// target file, between its own declarations: every chunk keeps its comments and expectation lines, so both files'
+// expectations are checked in the new neighbourhood. Imports of the sibling are added to the header (unused imports are
+// tolerated by the type-check of these variants).
+func guestVariants(sf, sib splitFile, sibBase string, sibImports []string) []variant {
+	var guests []int
+	var rest []int
+	for i, c := range sib.chunks {
+		if c.movable {
+			guests = append(guests, i)
+		} else {
+			rest = append(rest, i)
+		}
+	}
+	if len(guests) == 0 || len(sf.chunks) == 0 {
+		return nil
+	}
+	host := sf
+	if len(sibImports) > 0 {
+		host.header = sf.header + "\nimport (\n\t" + strings.Join(sibImports, "\n\t") + "\n)\n"
+	}
+	n := len(host.chunks)
+	all := append([]chunk{}, host.chunks...)
+	all = append(all, sib.chunks...)
+	host.chunks = all
+	sibLeft, _ := sib.render(rest, nil, "")
+	mk := func(name string, order []int) variant {
+		src, pl := host.render(order, nil, "")
+		return variant{name: name, src: src, padLines: pl, other: map[string]string{sibBase: sibLeft}}
+	}
+	var inter, front, back []int
+	gi := 0
+	for i := 0; i < n; i++ {
+		inter = append(inter, i)
+		if gi < len(guests) {
+			inter = append(inter, n+guests[gi])
+			gi++
+		}
+	}
+	for ; gi < len(guests); gi++ {
+		inter = append(inter, n+guests[gi])
+	}
+	for _, g := range guests {
+		front = append(front, n+g)
+	}
+	for i := 0; i < n; i++ {
+		front = append(front, i)
+		back = append(back, i)
+	}
+	for _, g := range guests {
+		back = append(back, n+g)
+	}
+	return []variant{mk("guest-interleave", inter), mk("guest-front", front), mk("guest-back", back)}
 }
 
 // variants applies the transformation schemas of Walker.tla: reorderings of the plain functions among their own slots,
@@ -164,7 +220,7 @@ func variants(sf splitFile, rng *rand.Rand, budget int, tag string) []variant {
 	var out []variant
 	add := func(name string, order []int, pads map[int]string, tail string) {
 		src, pl := sf.render(order, pads, tail)
-		out = append(out, variant{name, src, pl})
+		out = append(out, variant{name: name, src: src, padLines: pl})
 	}
 	m := len(mov)
 	if m >= 2 {
@@ -328,7 +384,45 @@ func locality(args []string) {
 					continue
 				}
 				sf := split(fset, src, f)
-				vs := append([]variant{{"identity", string(src), nil}}, variants(sf, rng, *budget, fmt.Sprintf("%d", fi))...)
+				vs := append([]variant{{name: "identity", src: string(src)}}, variants(sf, rng, *budget, fmt.Sprintf("%d", fi))...)
+				// the sibling example file of the same package as a source of guest declarations
+				sibBase := "negative_tests.go"
+				if base == sibBase {
+					sibBase = "positive_tests.go"
+				}
+				for _, g := range p.Syntax {
+					gphys := hx.FileName(fset, g.Pos())
+					if filepath.Base(gphys) != sibBase {
+						continue
+					}
+					gsrc, err := os.ReadFile(gphys)
+					if err != nil {
+						continue
+					}
+					// applicable only if the guests see the same imports under the same names (a file's import table is
+					// part of what its declarations mean: importShadow, dupImport, ... legitimately depend on it)
+					key := func(im *ast.ImportSpec) string {
+						if im.Name != nil {
+							return im.Name.Name + " " + im.Path.Value
+						}
+						return im.Path.Value
+					}
+					have := map[string]bool{}
+					for _, im := range f.Imports {
+						have[key(im)] = true
+					}
+					same := len(f.Imports) == len(g.Imports)
+					for _, im := range g.Imports {
+						if !have[key(im)] {
+							same = false
+						}
+					}
+					if !same {
+						continue
+					}
+					var extra []string
+					vs = append(vs, guestVariants(sf, split(fset, gsrc, g), sibBase, extra)...)
+				}
 				for vi, v := range vs {
 					mm, nWarn, nExp := runVariant(*work, dir, base, vi, v, p, deps, info, baseErrs)
 					mu.Lock()
@@ -381,6 +475,8 @@ func runVariant(work, dir, base string, vi int, v variant, p *packages.Package, 
 		hx.Must(err)
 		if b == base {
 			data = []byte(v.src)
+		} else if r, ok := v.other[b]; ok {
+			data = []byte(r)
 		}
 		path := filepath.Join(vdir, b)
 		hx.Must(os.WriteFile(path, data, 0o644))
@@ -402,6 +498,9 @@ func runVariant(work, dir, base string, vi int, v variant, p *packages.Package, 
 		if strings.Contains(err.Error(), "missing function body") || strings.Contains(err.Error(), "func verifPad") {
 			return
 		}
+		if v.other != nil && strings.Contains(err.Error(), "imported and not used") {
+			return
+		}
 		nerr++
 		if firstErr == "" {
 			firstErr = err.Error()
@@ -409,7 +508,7 @@ func runVariant(work, dir, base string, vi int, v variant, p *packages.Package, 
 	}}
 	tpkg, _ := conf.Check(p.PkgPath, fset, files, tinfo)
 	if (nerr > 0) != (baseErrs > 0) {
-		if strings.Contains(v.name, "samename") {
+		if strings.Contains(v.name, "samename") || v.other != nil {
 			return nil, 0, 0 // the re-used names are not usable as struct type names in this file (e.g. shadowed builtins): schema not applicable
 		}
 		return []locMismatch{{dir, base, v.name, "typeerror", 0, firstErr}}, 0, 0
